@@ -35,6 +35,7 @@ VERDICTS = (
     "could not prove termination",
     "index out of bounds",
     "failed precondition",
+    "unable to prove post-condition of closure",
 )
 UNDECIDED_MARKERS = ("Resource limit (rlimit) exceeded", "resource limit", "Verus Internal Error", "panicked at")
 
